@@ -27,6 +27,7 @@ import (
 	"encoding/json"
 	"fmt"
 	"os"
+	"runtime/pprof"
 	"sort"
 	"strings"
 	"time"
@@ -37,6 +38,12 @@ import (
 )
 
 func main() {
+	if f := os.Getenv("VERIF_CPUPROFILE"); f != "" {
+		if fh, err := os.Create(fmt.Sprintf("%s.%d", f, os.Getpid())); err == nil {
+			_ = pprof.StartCPUProfile(fh)
+			go func() { time.Sleep(20 * time.Second); pprof.StopCPUProfile(); fh.Close() }()
+		}
+	}
 	vkit.Main(&vkit.Spec{
 		Property: "C09", Level: "model_checking",
 		Rule: "every handler program over the operation alphabet {Header().Set(Content-Length | Content-Type | Trailer | Trailer+value | trailer value | Transfer-Encoding: chunked), " +
@@ -64,13 +71,32 @@ func main() {
 type input struct {
 	Program respgen.Program `json:"program"`
 	Text    string          `json:"text"`
+	// the allocator the program fails under ("" / zero: the explorer's own, track pooled)
+	Alt    bool   `json:"alt,omitempty"`
+	Alloc  string `json:"alloc,omitempty"`
+	Policy int    `json:"policy,omitempty"`
+	Move   bool   `json:"move,omitempty"`
+}
+
+// base is the allocator the BFS itself runs under (buffers behave like the stock pool's: capacity
+// at least 1024, growth in place); alts are the other values of the allocator dimension.
+var base = respgen.RunOpt{Policy: track.Pooled, NoSweep: true}
+
+var alts = []respgen.RunOpt{
+	{Alloc: respgen.AllocAligned},     // mempool.NewAligned(): a growing Append returns a new handle, the old one is freed
+	{Policy: track.Exact, Move: true}, // tracking allocator, exact capacities, every growing Append/Realloc relocates and poisons the old buffer
+	{Alloc: respgen.AllocSTD},         // mempool.NewSTD()
+}
+
+func altOf(in input) respgen.RunOpt {
+	return respgen.RunOpt{Alloc: in.Alloc, Policy: track.Policy(in.Policy), Move: in.Move, NoSweep: in.Alloc == ""}
 }
 
 func run(tier string, sh *vkit.Shard, p *vkit.Part) {
-	cfg := respgen.QuickConfig()
+	cfg := respgen.QuickConfig().WithFileSegments(false)
 	limit := 80 * time.Second
 	if tier == "thorough" {
-		cfg = respgen.ThoroughConfig()
+		cfg = respgen.ThoroughConfig().WithFileSegments(true)
 		limit = 17 * time.Minute
 	}
 	if d := os.Getenv("VERIF_C09_DEPTH"); d != "" {
@@ -84,7 +110,13 @@ func run(tier string, sh *vkit.Shard, p *vkit.Part) {
 		clusters = map[string]map[string]int{}
 		clusterEx = map[string]string{}
 	}
-	x := &respgen.Explorer{Env: env, Cfg: cfg, Opt: respgen.RunOpt{Policy: track.Pooled}, Judge: true}
+	x := &respgen.Explorer{Env: env, Cfg: cfg, Opt: base, Judge: true, Alts: alts}
+	if os.Getenv("VERIF_C09_NOALTS") != "" {
+		x.Alts = nil
+	}
+	if tier != "thorough" {
+		x.AltWanted = quickAltWanted
+	}
 	x.Stop = func() bool { return time.Now().After(deadline) }
 	x.Visit = func(n *respgen.Node) {
 		r := n.R
@@ -94,6 +126,23 @@ func run(tier string, sh *vkit.Shard, p *vkit.Part) {
 			states = 1
 		}
 		p.Count("programs_len_"+fmt.Sprint(len(n.Prog.Ops)), 1)
+		visitAlts(p, env, n)
+		countFileOps(p, n)
+		if os.Getenv("VERIF_C09_DEBUG") != "" {
+			k := ""
+			for i, op := range n.Prog.Ops {
+				if op.K == respgen.OpRFX {
+					k += fmt.Sprintf(" rfx@%d/%d", i+1, len(n.Prog.Ops))
+					break
+				}
+			}
+			for _, op := range n.Prog.Ops {
+				if op.K == respgen.OpCL && op.N == 1 {
+					k += " cl1"
+				}
+			}
+			p.Count("debug"+k, 1)
+		}
 		p.Count("version_"+respgen.Versions[n.Prog.Version].Name, 1)
 		if len(r.Viol) > 0 {
 			p.Count("ownership_violations_seen(C11)", 1)
@@ -194,15 +243,92 @@ func run(tier string, sh *vkit.Shard, p *vkit.Part) {
 	}
 }
 
+// quickAltWanted selects the programs of the quick tier that are run under the other allocators.
+// The moving allocators: one history per distinct (implementation state, model state) pair - the
+// programs the BFS expands or would expand - and every terminal outcome; mempool.NewSTD(), which
+// neither moves nor recycles, only for such programs up to length 3. The thorough tier runs every
+// program under every allocator.
+func quickAltWanted(n *respgen.Node, alt int) bool {
+	if !n.New {
+		return false
+	}
+	if alts[alt].Alloc == respgen.AllocSTD {
+		return len(n.Prog.Ops) <= 3
+	}
+	return true
+}
+
+// visitAlts accounts for and reports the allocator dimension of one program.
+func visitAlts(p *vkit.Part, env *respgen.Env, n *respgen.Node) {
+	if n.AltRuns > 0 {
+		p.Count("programs_run_under_other_allocators", 1)
+		p.Count("runs_under_other_allocators", n.AltRuns)
+	}
+	for _, f := range n.Alt {
+		p.Count("programs_failing_only_under_allocator_"+f.Opt.String(), 1)
+		if n.AltTaint&n.AltFail != 0 {
+			// cannot happen: a tainted allocator is not run again
+			continue
+		}
+		sig, minimal := respgen.SignAlt(env, n, f)
+		sig += " [allocator " + f.Opt.String() + "]"
+		text := n.Prog.String() + "   [allocator " + f.Opt.String() + "; the same program is clean under " + base.String() + "]"
+		if len(minimal.Ops) != len(n.Prog.Ops) {
+			text += "\n  minimal failing program: " + minimal.String()
+		}
+		for _, v := range f.Verdicts {
+			text += fmt.Sprintf("\n  %s: %s", v.Clause, v.Detail)
+		}
+		p.Report(sig, text, "program", input{Program: n.Prog, Text: text, Alt: true, Alloc: f.Opt.Alloc, Policy: int(f.Opt.Policy), Move: f.Opt.Move})
+	}
+}
+
+// countFileOps: vacuity counters of the file-segment family of ReadFrom.
+func countFileOps(p *vkit.Part, n *respgen.Node) {
+	if len(n.Prog.Ops) == 0 || !n.Judged {
+		return
+	}
+	op := n.Prog.Ops[len(n.Prog.Ops)-1]
+	if op.K != respgen.OpRFX {
+		return
+	}
+	conn := n.Prog.Conn
+	p.Count("file_segment_ops", 1)
+	p.Count("file_segment "+op.Sym+" conn="+conn, 1)
+	or := n.R.Ops[len(n.R.Ops)-1]
+	if or.Sendfile > 0 {
+		p.Count("file_segment_ops_taking_the_sendfile_path", 1)
+		if op.Count() == 0 {
+			p.Count("file_segment_ops_taking_the_sendfile_path_with_nothing_to_send", 1)
+		}
+	}
+	if n.Model.DeclaredCL() > 0 {
+		if n.Partial {
+			p.Count("file_segment_ops_content_length_larger_than_sent", 1)
+		} else {
+			p.Count("file_segment_ops_content_length_equal_to_sent", 1)
+		}
+	}
+	if n.Prog.Next {
+		p.Count("file_segment_ops_followed_by_a_pipelined_response", 1)
+	}
+}
+
 func replay(scenario string, in json.RawMessage) string {
 	var inp input
 	if err := json.Unmarshal(in, &inp); err != nil {
 		return "bad replay input: " + err.Error()
 	}
 	env := respgen.GetEnv()
-	n := respgen.Attribute(env, inp.Program, respgen.RunOpt{Policy: track.Pooled})
+	opt := base
+	n := respgen.Attribute(env, inp.Program, opt)
+	if alt := altOf(inp); inp.Alt && len(n.Verdicts) == 0 {
+		fmt.Printf("the program is clean under allocator %s; running it under allocator %s\n", base, alt)
+		opt = alt
+		n = respgen.Attribute(env, inp.Program, opt)
+	}
 	r, m := n.R, n.Model
-	fmt.Println("program:", inp.Program.String())
+	fmt.Println("program:", inp.Program.String(), " allocator:", opt.String())
 	for i, o := range r.Ops {
 		fmt.Printf("  op %d %-16s -> n=%d err=%q wire %d->%d buffered=%d headEncoded=%v\n", i, inp.Program.Ops[i], o.N, o.Err, o.Wire0, o.Wire1, o.Buffered, o.HeadEncoded)
 	}
@@ -225,7 +351,10 @@ func replay(scenario string, in json.RawMessage) string {
 		fmt.Println("a proper prefix of this program already fails; the explorer does not report this program")
 	}
 	if len(n.Verdicts) > 0 {
-		sig, minimal := respgen.Sign(env, n, respgen.RunOpt{Policy: track.Pooled})
+		sig, minimal := respgen.Sign(env, n, opt)
+		if opt != base {
+			sig += " [allocator " + opt.String() + "]"
+		}
 		out = append(out, "signature: "+sig, "  minimal failing program: "+minimal.String())
 		for _, v := range n.Verdicts {
 			out = append(out, "  "+v.Clause+": "+v.Detail)
